@@ -5,6 +5,10 @@ package netsim
 import (
 	"fmt"
 
+	"github.com/scionproto/scion/pkg/addr"
+	"net"
+	"net/netip"
+
 	"github.com/gopacket/gopacket"
 
 	"github.com/scionproto/scion/pkg/slayers"
@@ -13,7 +17,11 @@ import (
 
 // reverseUDP is what a destination host does to answer: decode with the real slayers, reverse the
 // path with the real default reply pather, swap addresses and ports.
-func reverseUDP(raw []byte) ([]byte, error) {
+func reverseUDP(raw []byte) ([]byte, error) { return reverseUDPFrom(raw, nil) }
+
+// reverseUDPFrom: self, if given, is the replying host's own address (needed when the request was
+// addressed to a service address).
+func reverseUDPFrom(raw []byte, self *addr.Host) ([]byte, error) {
 	var sc slayers.SCION
 	sc.RecyclePaths()
 	if err := sc.DecodeFromBytes(raw, gopacket.NilDecodeFeedback); err != nil {
@@ -44,6 +52,9 @@ func reverseUDP(raw []byte) ([]byte, error) {
 	}
 	out := &slayers.SCION{Version: 0, TrafficClass: sc.TrafficClass, FlowID: sc.FlowID, NextHdr: slayers.L4UDP,
 		SrcIA: sc.DstIA, DstIA: sc.SrcIA}
+	if self != nil {
+		dst = *self
+	}
 	if err := out.SetSrcAddr(dst); err != nil {
 		return nil, err
 	}
@@ -62,3 +73,9 @@ func reverseUDP(raw []byte) ([]byte, error) {
 	}
 	return append([]byte(nil), buf.Bytes()...), nil
 }
+
+func netUDP(ap netip.AddrPort) net.UDPAddr {
+	return net.UDPAddr{IP: ap.Addr().AsSlice(), Port: int(ap.Port())}
+}
+
+func udpPtr(ap netip.AddrPort) *net.UDPAddr { u := netUDP(ap); return &u }
